@@ -19,7 +19,7 @@ import (
 func init() {
 	register(&Prop{
 		ID: "C15", Level: "fault_enumeration",
-		Rule: "one case = a router with CustomRecoveryWithLogHandler(capturing handler, DefaultHandleRecovery) over all handler kinds, generated routes, request headers carrying unique secret tokens under credential-bearing names in canonical, lower-case and mixed capitalisation (drawn; some with two values or under two capitalisations at once) next to ordinary headers, and a generated Updates/View program; for that configuration ALL combinations are enumerated of panic value (string, error, wrapped error, nil, custom type, http.ErrAbortHandler bare and wrapped, net.OpError with broken pipe / connection reset / other errno, directly or one wrapping layer down) x response progress at the time of the panic (nothing, header only, partial body, after a failed write) x panic site (route handler, route-specific middleware, route handler reached through an ignored trailing slash, no-route, no-method and options handlers), a panic after every prefix of the Updates/View program run inside a handler, and a panic raised by a middleware constructor while Router.Handle/Update build a route inside a handler (user code running under the writer lock). Oracle: ServeHTTP returns normally (ErrAbortHandler re-raised as the identical value); the simulated connection shows 500 iff nothing had been written and the value is not a broken-connection error, nothing at all for broken connections, an untouched partial response otherwise; exactly one diagnostic record naming route (or scope), parameters and request line and containing none of the secret values; afterwards the routes are unchanged, a follow-up request is served and a write issued under the scheduler completes (writer lock released, else deadlock). Non-trivial: every run (all combinations are executed); distinct = hash of (configuration, header capitalisation, program).",
+		Rule: "one case = a router with CustomRecoveryWithLogHandler(capturing handler, DefaultHandleRecovery) over all handler kinds, generated routes, request headers carrying unique secret tokens under credential-bearing names in canonical, lower-case and mixed capitalisation (drawn; some with two values or under two capitalisations at once) next to ordinary headers, a drawn request-target form (origin-form, absolute-form, no host), and a generated Updates/View program; for that configuration ALL combinations are enumerated of panic value (string, error, wrapped error, nil, custom type, http.ErrAbortHandler bare and wrapped, net.OpError with broken pipe / connection reset / other errno, directly or one wrapping layer down) x response progress at the time of the panic (nothing, header only, partial body, after a failed write) x panic site (route handler, route-specific middleware, route handler reached through an ignored trailing slash, no-route, no-method and options handlers), a panic after every prefix of the Updates/View program run inside a handler, and a panic raised by a middleware constructor while Router.Handle/Update build a route inside a handler (user code running under the writer lock). Oracle: ServeHTTP returns normally (ErrAbortHandler re-raised as the identical value); the simulated connection shows 500 iff nothing had been written and the value is not a broken-connection error, nothing at all for broken connections, an untouched partial response otherwise; exactly one diagnostic record naming route (or scope), parameters and request line and containing none of the secret values; afterwards the routes are unchanged, a follow-up request is served and a write issued under the scheduler completes (writer lock released, else deadlock). Non-trivial: every run (all combinations are executed); distinct = hash of (configuration, header capitalisation, program).",
 		Run:  runC15, Quick: 4000, Thorough: 480000,
 		Real: []string{"Recovery middleware (recovery.go)", "Router.Updates/View abort paths", "recorder ResponseWriter", "ServeHTTP dispatch"},
 		Stub: []string{"slog sink: capturing handler", "net/http connection: simulated connection", "handlers and middleware that panic on script"},
@@ -139,8 +139,18 @@ func runC15(src sim.Source, o Opts) *Result {
 		}
 	}
 	ordinary = append(ordinary, hdr{"X-Request-Id", "ordinary-value-1", ""}, hdr{"accept", "ordinary-value-2", ""})
+	// the request-target form: origin-form, absolute-form (proxy style) or a request without any host - the dump of
+	// the request starts differently in each case (httputil.DumpRequest omits the Host line for the last two)
+	reqForm := sim.Pick(src, "reqform", []string{"origin", "origin", "absolute", "nohost"})
+	res.inc("request_form_" + reqForm)
 	mkReq := func(method, p string, log *world.ReqLog) *http.Request {
 		req := world.NewRequest(method, "sim.invalid", p, "", "q=1", log)
+		switch reqForm {
+		case "absolute":
+			req.RequestURI = "http://sim.invalid" + p + "?q=1"
+		case "nohost":
+			req.Host = ""
+		}
 		for _, h := range secrets {
 			req.Header[h.Key] = append(req.Header[h.Key], h.Val)
 		}
@@ -154,6 +164,7 @@ func runC15(src sim.Source, o Opts) *Result {
 		hdesc = append(hdesc, h.Key)
 	}
 	res.Case["secret_header_names"] = hdesc
+	res.Case["request_form"] = reqForm
 	res.Case["routes"] = set.Fingerprint()
 	res.Case["request"] = "GET " + path
 
@@ -328,6 +339,9 @@ func runC15(src sim.Source, o Opts) *Result {
 						}
 					}
 					reqLine := fmt.Sprintf("%s %s?q=1 HTTP/1.1", st.Method, st.Path)
+					if reqForm == "absolute" {
+						reqLine = fmt.Sprintf("%s http://sim.invalid%s?q=1 HTTP/1.1", st.Method, st.Path)
+					}
 					if !strings.Contains(rec.Msg, reqLine) {
 						res.fail("C15/log-record", "%s: the record does not name the request line %q", where, reqLine)
 						return res
@@ -487,7 +501,7 @@ func runC15(src sim.Source, o Opts) *Result {
 		}
 	}
 	res.Nontrivial = true
-	res.CaseKey = hashStrings(cfg.String(), set.Fingerprint(), fmt.Sprint(hdesc), prog.String(), path)
+	res.CaseKey = hashStrings(cfg.String(), set.Fingerprint(), fmt.Sprint(hdesc), prog.String(), path, reqForm)
 	res.Hash = hashStrings(fmt.Sprint(res.Checks), set.Fingerprint(), fmt.Sprint(hdesc), prog.String())
 	return res
 }
